@@ -25,10 +25,17 @@ def splitPredR (m : UInt16) (b : Option Bytes) (o : PayObs) : Bool :=
   | none => !o.panicked && (o.frags.isEmpty || splitR m [] o)
   | some p => if m == 0 then !o.panicked else splitR m p o
 
-/-- `c16.split <mtu> <obytes> => PayObs`  (the harness runs G711 and G722 under two kinds).
+/-- `<mtu> <obytes> <calls>`: the call under test, then the calls the SAME payloader instance has
+    served before it (0 = a fresh instance).  The payloaders are stateless, so the model's answer and
+    the property's demand depend on the call under test only; the earlier calls are in the input so
+    that a failing case shows the whole history. -/
+def rdCallAfter : Rd (UInt16 × Option Bytes) := do
+  let m ← Rd.u16; let b ← Rd.obytes; let _ ← rdCalls; pure (m, b)
+
+/-- `c16.split <mtu> <obytes> <calls> => PayObs`  (the harness runs G711 and G722 under two kinds).
     `wf`: "MTU >= 1"; nil and empty inputs are inputs of length 0. -/
 def split : Handler :=
-  mkHandler (do let m ← Rd.u16; let b ← Rd.obytes; pure (m, b)) rdPayObs
+  mkHandler rdCallAfter rdPayObs
     (fun (m, b) => PayObs.ofFrags (Model.g711Payload m b))
     (fun (m, b) o => splitPredR m b o)
     (fun (m, _) => m != 0)
@@ -42,7 +49,7 @@ def opusPredR (b : Option Bytes) (o : PayObs) : Bool :=
   | some p => Rtp.Pred.C16.opusPay p o
 
 def opusPay : Handler :=
-  mkHandler (do let m ← Rd.u16; let b ← Rd.obytes; pure (m, b)) rdPayObs
+  mkHandler rdCallAfter rdPayObs
     (fun (m, b) => PayObs.ofFrags (Model.opusPayload m b))
     (fun (_, b) o => opusPredR b o)
 
